@@ -215,6 +215,14 @@ func (b *Base) Variant(overlay map[string][]byte) (*Ctx, error) {
 				if ip := imps[path]; ip != nil && ip.Types != nil {
 					return ip.Types, nil
 				}
+				// an import the original file set did not have: any package of the loaded program
+				if ip := b.all[path]; ip != nil && ip.Types != nil {
+					if r := repl[ip]; r != nil {
+						ip = r
+					}
+					imps[path] = ip
+					return ip.Types, nil
+				}
 				return nil, fmt.Errorf("import %q not resolved", path)
 			}),
 			Sizes:     p.TypesSizes,
